@@ -16,7 +16,7 @@ ASSUMPTIONS = [
     "delivery model: per-channel FIFO interleavings (sleep-set reduced) for A-Max-Sum on the pair; synchronous rounds for Max-Sum (canonical schedule: the mixin makes the round structure schedule-independent, which C08 checks)",
 ]
 BOUNDS = {
-    "quick": "the stability cut-off approx_match on symbolic cost messages (domain 2-3); single binary factor (pair), min and max, domain 2: Max-Sum 8 rounds (canonical schedule), A-Max-Sum all FIFO schedules up to 60 deliveries; pair with unary factor; chains of 4 and 5 variables (equality penalties pinned, two symbolic unary factors in [-8, 8], 24-30 rounds: longer than the stability window)",
+    "quick": "the stability cut-off approx_match on symbolic cost messages (domain 2-3); single binary factor (pair), min and max, domain 2: Max-Sum 8 rounds (canonical schedule), A-Max-Sum all FIFO schedules up to 60 deliveries; pair with unary factor; pair whose two variables have their own cost tables; chains of 4 and 5 variables (equality penalties pinned, two symbolic unary factors in [-8, 8], 24-30 rounds: longer than the stability window)",
     "thorough": "quick + chain-3 (Max-Sum, 10 rounds, canonical schedule), star-3, pair with domain 3 (rational model), A-Max-Sum chain-3 canonical schedule, chain of 5 variables with pinned equality penalties (30 rounds)",
 }
 OUTSIDE = "more than 4 variables, cyclic graphs, float rounding at domain size 3, damping/noise other than 0"
@@ -29,6 +29,8 @@ def jobs(tier):
     for mode in ("min", "max"):
         out.append({"name": "maxsum-pair-%s" % mode, "algo": "maxsum", "spec": spec("pair", mode), "rounds": 8, "fixed": True})
         out.append({"name": "amaxsum-pair-%s" % mode, "algo": "amaxsum", "spec": spec("pair", mode), "steps": 60, "fixed": False})
+        # variables with their own cost tables (the variable -> factor messages are not zero-mean any more)
+        out.append({"name": "maxsum-pairvcost2-%s" % mode, "algo": "maxsum", "spec": spec("pair_vcost2", mode), "rounds": 8, "fixed": True})
         out.append({"name": "maxsum-pairunary-%s" % mode, "algo": "maxsum", "spec": spec("pair_unary", mode), "rounds": 8,
                     "fixed": True})
         if tier == "thorough":
